@@ -87,6 +87,7 @@ enum Stop {
     ResumeSame,
     ResumeNext,
     ResumeTo(String),
+    ReturnTo(String),
 }
 
 type R<T> = Result<T, Stop>;
@@ -801,13 +802,20 @@ impl<'a> Machine<'a> {
         loop {
             let r = self.exec_inner(s, path);
             match r {
-                Err(Stop::Err(e)) if self.handler.is_some() && !self.in_handler && self.frames.len() == 1 => {
-                    // dispatch to the handler (module-level failing statements only)
+                Err(Stop::Err(e)) if self.handler.is_some() && !self.in_handler => {
+                    // dispatch to the handler, which runs at module level whatever procedure the statement is in
                     let h = self.handler.clone().unwrap();
+                    let in_proc = self.frames.len() > 1;
                     self.feat("error-handled");
+                    if in_proc {
+                        self.feat("error-handled-inside-procedure");
+                    }
                     self.err_code = e.code;
                     self.in_handler = true;
+                    let saved = self.frames.split_off(1);
+                    let saved_depth = self.gosub_depth;
                     let hr = self.run_from_label_main(&h);
+                    self.frames.extend(saved);
                     self.in_handler = false;
                     match hr {
                         Err(Stop::ResumeSame) => {
@@ -821,6 +829,9 @@ impl<'a> Machine<'a> {
                             return Ok(());
                         }
                         Err(Stop::ResumeTo(l)) => {
+                            if in_proc {
+                                return undet("RESUME label for an error raised inside a procedure");
+                            }
                             // RESUME label: the handler ends, control continues at the label
                             self.err_code = 0;
                             self.feat("resume-label");
@@ -828,12 +839,15 @@ impl<'a> Machine<'a> {
                         }
                         Err(Stop::Goto(l)) => panic!("refsem: GOTO {} escaped an error handler", l),
                         Ok(()) => return Err(Stop::End),
-                        Err(other) => return Err(other),
+                        Err(other) => {
+                            let _ = saved_depth;
+                            return Err(other);
+                        }
                     }
                 }
-                Err(Stop::Err(e)) if self.handler.is_some() && (self.in_handler || self.frames.len() > 1) => {
+                Err(Stop::Err(e)) if self.handler.is_some() && self.in_handler => {
                     let _ = e;
-                    return undet("error inside a handler or inside a procedure while a handler is active");
+                    return undet("error inside a handler");
                 }
                 other => return other,
             }
@@ -1081,6 +1095,12 @@ impl<'a> Machine<'a> {
                         self.gosub_depth -= 1;
                         Ok(())
                     }
+                    Err(Stop::ReturnTo(l)) => {
+                        // the GOSUB has been returned from; control continues at the label
+                        self.gosub_depth -= 1;
+                        self.feat("return-label");
+                        Err(Stop::Goto(l))
+                    }
                     Ok(()) => Err(Stop::End),
                     Err(o) => Err(o),
                 }
@@ -1091,6 +1111,14 @@ impl<'a> Machine<'a> {
                     self.err(3, path)
                 } else {
                     Err(Stop::Return)
+                }
+            }
+            Stmt::ReturnTo(l) => {
+                if self.gosub_depth == 0 {
+                    self.feat("return-without-gosub");
+                    self.err(3, path)
+                } else {
+                    Err(Stop::ReturnTo(l.clone()))
                 }
             }
             Stmt::OnErrorGoto(l) => {
@@ -1290,7 +1318,7 @@ pub fn run(prog: &Program, budget: u64) -> Outcome {
         Err(Stop::Goto(l)) => panic!("refsem: GOTO to unknown label {}", l),
         Err(Stop::Return) => panic!("refsem: stray RETURN flow"),
         Err(Stop::ExitProc) => panic!("refsem: EXIT outside procedure"),
-        Err(Stop::ResumeSame) | Err(Stop::ResumeNext) | Err(Stop::ResumeTo(_)) => panic!("refsem: stray RESUME flow"),
+        Err(Stop::ResumeSame) | Err(Stop::ResumeNext) | Err(Stop::ResumeTo(_)) | Err(Stop::ReturnTo(_)) => panic!("refsem: stray RESUME / RETURN flow"),
     };
     let mut globals = BTreeMap::new();
     for (i, v) in prog.vars.iter().enumerate() {
